@@ -1,6 +1,7 @@
 package harness
 
 import (
+	"google.golang.org/protobuf/types/known/timestamppb"
 	"bytes"
 	"context"
 	"fmt"
@@ -127,7 +128,10 @@ func (m *storeModel) digestOf(o *object, inst string) digest.Digest {
 
 // acPayload builds a unique ActionResult for an upload.
 func acPayload(obj, tag, pad int) []byte {
-	ar := &remoteexecution.ActionResult{ExitCode: int32(tag), StdoutRaw: bytes.Repeat([]byte{byte(0x30 + obj%10)}, pad), StderrRaw: []byte(fmt.Sprintf("k%d", obj))}
+	// (with a completion timestamp: the Action Cache's configured top-level
+	// decorator then forwards the message unaltered)
+	ar := &remoteexecution.ActionResult{ExitCode: int32(tag), StdoutRaw: bytes.Repeat([]byte{byte(0x30 + obj%10)}, pad), StderrRaw: []byte(fmt.Sprintf("k%d", obj)),
+		ExecutionMetadata: &remoteexecution.ExecutedActionMetadata{WorkerCompletedTimestamp: &timestamppb.Timestamp{Seconds: 1700000000}}}
 	b, err := proto.Marshal(ar)
 	if err != nil {
 		panic(err)
